@@ -195,6 +195,19 @@ def _arrays_of(val):
     return None
 
 
+def _global_state():
+    """Process-wide state that a computation must leave as it found it (otherwise later computations depend on the
+    schedule of earlier ones): warning filters, numpy error state, acryo's default backend, dask's scheduler setting."""
+    import warnings
+
+    import dask
+    from acryo.backend import Backend
+
+    return {"warnings.filters": repr(warnings.filters), "numpy.errstate": repr(sorted(np.geterr().items())),
+            "Backend._default": repr(Backend._default), "dask.scheduler": repr(dask.config.get("scheduler", None)),
+            "numpy.printoptions": repr(sorted((k, repr(v)) for k, v in np.get_printoptions().items()))}
+
+
 def _reference_side(sc):
     """Everything that is computed sequentially: the reference on the same layout/knobs, declared shapes, the isolation
     runs and the eager twin.  Runs in its own forked process so that the simulated execution (in the parent) starts
@@ -330,16 +343,22 @@ def execute(sc):
     # PCT change points are drawn over the expected number of trace events (~40 per task, measured)
     sim = _make_sim(sc["schedule"], hooks, pct_horizon=max(200, 40 * R["ref_tasks"]))
     sim_error = None
+    g_before = _global_state()
     try:
         sim_world, out = _execute_ops(sc, w, sim, knobs, fail_reads=fail_reads)
     except (SimDeadlock,) as e:
         sim_world, out = None, []
         sim_error = e
+    g_after = _global_state()
     delivered_f8 = 0
     if sim_world is not None:
         delivered_f8 = sum(s.failed for s in sim_world.stores if s is not None)
     if violation is None and sim_error is not None:
         violation = {"kind": "deadlock", "site": "scheduler", "detail": str(sim_error)}
+    if violation is None and g_before != g_after and not generator_defect:
+        changed = [k for k in g_before if g_before[k] != g_after[k]]
+        violation = {"kind": "global-state-leaked", "site": ",".join(changed),
+                     "detail": f"process-wide state differs after the computation: {changed} (e.g. {str(g_after[changed[0]])[:160]}); later computations in this process depend on it"}
     if violation is None and sim_world is not None and not generator_defect:
         if sim_world.inputs_changed:
             violation = {"kind": "inputs-modified", "site": ",".join(sim_world.inputs_changed), "detail": "simulated execution modified its inputs"}
